@@ -1469,6 +1469,7 @@ impl<D: TextDecorator> Renderer for SubRenderer<D> {
 
         self.flush_wrapping()?;
         let tag = self.ann_stack.clone();
+        let first_new = self.lines.len();
 
         self.extend_lines(
             other
@@ -1499,6 +1500,17 @@ impl<D: TextDecorator> Renderer for SubRenderer<D> {
                     }
                 }),
         );
+
+        // A block that was squeezed into less than nothing (its prefix alone is
+        // wider than this renderer) must not produce over-wide lines.
+        if !self.options.allow_width_overflow
+            && self.lines.iter().skip(first_new).any(|line| match line {
+                RenderLine::Text(tline) => tline.width() > self.width,
+                RenderLine::Line(_) => false,
+            })
+        {
+            return Err(TooNarrow);
+        }
 
         Ok(())
     }
